@@ -254,6 +254,9 @@ where
                     if let Some(hm) = parse_fixed(&h, 4) {
                         let m = hm % 100;
                         let h = hm / 100;
+                        if m > 59 {
+                            return Err(format!("Expected offset minutes in range 0..=59, got {}", m));
+                        }
                         out.offset = Some(s * (h * 3600 + m * 60));
                         Ok(())
                     } else if let Ok(h) = i32::from_str_radix(&h, 10) {
@@ -416,9 +419,14 @@ fn attempt(
             _ => Err(("Failed to construct a useful datetime".to_string(), count)),
         }
     } else {
-        let offset = parsed
-            .to_fixed_offset()
-            .unwrap_or_else(|_| FixedOffset::east_opt(0).unwrap());
+        // No offset means UTC. An offset that was given but is out of range
+        // (`+24:00`) does not.
+        let offset = match parsed.offset {
+            None => FixedOffset::east_opt(0).unwrap(),
+            Some(_) => parsed
+                .to_fixed_offset()
+                .map_err(|_| ("UTC offset is out of range".to_string(), count))?,
+        };
         match (time, date) {
             (Ok(time), Ok(date)) => offset
                 .from_local_datetime(&date.and_time(time))
